@@ -49,6 +49,8 @@ def jsonable(x, depth=0):
     if isinstance(x, complex):
         return [x.real, x.imag]
     if isinstance(x, np.ndarray):
+        if x.ndim == 0:
+            return jsonable(x.item(), depth + 1)
         if x.size > 400:
             return {"shape": list(x.shape), "head": jsonable(x.ravel()[:20]), "sha": hashlib.sha1(np.ascontiguousarray(x).tobytes()).hexdigest()[:12]}
         return [jsonable(v, depth + 1) for v in x.tolist()]
